@@ -315,6 +315,9 @@ TsEval(t, co, xp, j) ==
   LET lo == TsXmin(t)  hi == TsXmax(t) IN
   TLCEval([k \in 1..Len(co) |-> TLCEval([i \in 1..Len(xp[k]) |-> Eval(co[k], t.basis, XNorm(xp[k][i], lo, hi, j))])])
 TsGrid(t) == DefaultGrid(TsXmin(t), TsXmax(t))
+(* row independence: row k of an evaluation is what trace k alone gives at its own positions - whatever the   *)
+(* other rows are (equal to it, nearly equal, or far away)                                                    *)
+RowIndependent(t, co, xp, j) == \A k \in 1..Len(co) : TsEval(t, co, xp, j)[k] = TsEval(t, <<co[k]>>, <<xp[k]>>, j)[1]
 
 (* ---------------- comparing a real number with a rational --------------- *)
 (* Trunc(q, bits) = the integer part of |q| * 2^bits with the sign of q (binary long          *)
